@@ -4,7 +4,7 @@
    PulseStorage over the same backend loads (comparison flags computed on the real objects).
    check_corr: the model predicts exactly that observation.  check_spec: the property itself on the observation. *)
 From Coq Require Import String List ZArith QArith Bool.
-Require Import QV.common.Util QV.C10.Model QV.C10.Iface.
+Require Import QV.common.Util QV.C10.Model QV.C10.Iface QV.C10.Hist.
 Import ListNotations.
 Open Scope string_scope.
 
@@ -34,7 +34,7 @@ Fixpoint json_eqb (a b : json) : bool :=
   end.
 
 (* ---- observation -------------------------------------------------------------------------------------------------- *)
-Inductive sres := SOk | SErrValue | SErrType | SErrRuntime | SErrOther.
+Inductive sres := SOk | SErrValue | SErrType | SErrRuntime | SErrKey | SErrOther.
 
 Record lobs := mkLobs {
   lo_ok : bool;        (* fresh_storage[identifier] returned an object *)
@@ -62,6 +62,14 @@ Inductive case :=
           (expected : pt)                          (* the template they were written from, as introspected then *)
           (impl_loaded : option pt)                (* what the implementation loads now, introspected *)
           (iface_ok : bool)                        (* its interface and duration equal the ones recorded then *)
+(* round 3: a history of store / overwrite / delete operations on ONE PulseStorage over an initially empty backend.  An
+   operation carries the template as introspected AT THAT MOMENT (link_to / unlink change an object between operations:
+   same oid, different state); finals = (storage key, state at the end, behaviour comparable) per root *)
+| CHist (ops : list hop)
+        (impl_res : list sres)
+        (impl_be : list (string * json))
+        (finals : list (string * pt * bool))
+        (impl_loads : list (nat * lobs))          (* per root index whose key is in the backend at the end *)
 | CCrash.
 
 Fixpoint lookup_nat {A} (k : nat) (l : list (nat * A)) : option A :=
@@ -69,9 +77,11 @@ Fixpoint lookup_nat {A} (k : nat) (l : list (nat * A)) : option A :=
 
 (* ---- the model's prediction ---------------------------------------------------------------------------------------- *)
 Definition sres_of {A} (r : result A) : sres :=
-  match r with Ok _ => SOk | Err EValue => SErrValue | Err EType => SErrType | Err ERuntime => SErrRuntime | Err _ => SErrOther end.
+  match r with Ok _ => SOk | Err EValue => SErrValue | Err EType => SErrType | Err ERuntime => SErrRuntime
+  | Err EKey => SErrKey | Err _ => SErrOther end.
 Definition sres_eqb (a b : sres) : bool :=
-  match a, b with SOk, SOk | SErrValue, SErrValue | SErrType, SErrType | SErrRuntime, SErrRuntime | SErrOther, SErrOther => true
+  match a, b with SOk, SOk | SErrValue, SErrValue | SErrType, SErrType | SErrRuntime, SErrRuntime | SErrKey, SErrKey
+  | SErrOther, SErrOther => true
   | _, _ => false end.
 
 (* two PulseStorage instances over one backend: Model.hrun; operations name their root by position *)
@@ -95,14 +105,15 @@ Definition ids_consistent (ps : list pt) : bool :=
   let nn := flat_map named_nodes ps in
   forallb (fun a => forallb (fun b => negb (String.eqb (fst a) (fst b)) || N.eqb (pt_oid (snd a)) (pt_oid (snd b))) nn) nn.
 
+Definition model_load_key (be : backend) (i : string) (p : pt) : lobs :=
+  match load LOAD_FUEL be fresh_l i with
+  | Ok (p', _) => let e := json_eqb (repr p') (repr p) in mkLobs true e e e e (ids_consistent [p'])
+  | Err _ => mkLobs false false false false false false
+  end.
 Definition model_load (be : backend) (p : pt) : lobs :=
   match pt_id p with
   | None => mkLobs false false false false false false
-  | Some i =>
-      match load LOAD_FUEL be fresh_l i with
-      | Ok (p', _) => let e := json_eqb (repr p') (repr p) in mkLobs true e e e e (ids_consistent [p'])
-      | Err _ => mkLobs false false false false false false
-      end
+  | Some i => model_load_key be i p
   end.
 
 (* The model has no semantics of templates: when it predicts an object that differs from the original (only possible
@@ -151,6 +162,16 @@ Definition check_corr (c : case) : bool :=
       | Err _, None => true
       | _, _ => false
       end
+  | CHist ops impl_res impl_be finals impl_loads =>
+      let '(h, res) := hrun2 (empty_h []) ops in
+      list_eqb sres_eqb (map sres_of res) impl_res
+      && be_eqb (hbe h) impl_be
+      && forallb (fun il => match nth_error finals (fst il) with
+                            | Some (k, p, cmp) =>
+                                let m := model_load_key (hbe h) k p in
+                                if cmp then lobs_corr m (snd il)
+                                else Bool.eqb (lo_ok m) (lo_ok (snd il)) && (negb (lo_ok m) || Bool.eqb (lo_eq m) (lo_eq (snd il)))
+                            | None => false end) impl_loads
   | CCrash => false
   end.
 
@@ -199,6 +220,83 @@ Definition clean (roots : list pt) (ops : list (nat * nat)) : bool :=
   ids_consistent roots && forallb (fun op => Nat.eqb (fst op) 0) ops
   && forallb (fun p => match pt_id p with Some _ => all_encodable p | None => false end) roots.
 
+
+(* ---- histories: an independent reading of the storage protocol at the level of keys ------------------------------------ *)
+(* K: storage key -> the object last written under it.  On one PulseStorage over an initially empty backend the keys of
+   the temporary storage and of the backend coincide, so "the storage has identifier i" is "i is a key of K".
+   written K0 top c = the named nodes that storing c writes: c itself unless its identifier is taken (then nothing below it
+   either: the encoder only checks identity), and everything reachable below it through unnamed or newly written nodes. *)
+Fixpoint written (K0 : list string) (top : bool) (c : pt) : list (string * pt) :=
+  let below :=
+    match c with
+    | PSeq _ subs _ _ | PAmc _ subs _ _ _ => flat_map (written K0 false) subs
+    | PRep _ b _ _ _ | PFor _ b _ _ _ _ | PMap _ b _ _ _ _ | PPar _ b _ | PArith _ b _ _ _ | PRev _ b => written K0 false b
+    | PAA _ l r _ _ => (written K0 false l ++ written K0 false r)%list
+    | _ => []
+    end in
+  if top then below else
+  match pt_id c with
+  | Some i => if existsb (String.eqb i) K0 then [] else (i, c) :: below
+  | None => below
+  end.
+Fixpoint kput (K : list (string * pt)) (i : string) (p : pt) : list (string * pt) :=
+  match K with
+  | [] => [(i, p)]
+  | (k, v) :: r => if String.eqb k i then (k, p) :: r else (k, v) :: kput r i p
+  end.
+Definition kwrite (K : list (string * pt)) (key : string) (p : pt) : list (string * pt) :=
+  fold_left (fun K e => kput K (fst e) (snd e)) (written (map fst K) true p) (kput K key p).
+Definition kstep (K : list (string * pt)) (o : hop) (r : sres) : list (string * pt) :=
+  match r with
+  | SOk =>
+      match o with
+      | HStore _ k p => if has_key k K then K else kwrite K k p       (* an identifier the storage has: nothing is written *)
+      | HOver _ k p => kwrite K k p
+      | HDel _ k => filter (fun kv => negb (String.eqb (fst kv) k)) K
+      end
+  | _ => K
+  end.
+(* deleting succeeds exactly when the key is there *)
+Definition kres_ok (K : list (string * pt)) (o : hop) (r : sres) : bool :=
+  match o with
+  | HDel _ k => if has_key k K then sres_eqb r SOk else sres_eqb r SErrKey
+  | _ => true
+  end.
+Fixpoint krun (K : list (string * pt)) (ops : list hop) (res : list sres) : list (string * pt) * bool :=
+  match ops, res with
+  | o :: ro, r :: rr => let (K', ok) := krun (kstep K o r) ro rr in (K', kres_ok K o r && ok)
+  | [], [] => (K, true)
+  | _, _ => (K, false)
+  end.
+Definition same_obj (a b : pt) : bool := N.eqb (pt_oid a) (pt_oid b) && json_eqb (repr a) (repr b).
+(* what is written under the keys of p's tree at the end is p's tree as it is at the end *)
+Definition current (K : list (string * pt)) (key : string) (p : pt) : bool :=
+  match lookup key K with Some q => same_obj q p | None => false end
+  && forallb (fun n => match lookup (fst n) K with Some q => same_obj q (snd n) | None => false end)
+             (flat_map named_nodes (children p)).
+(* a document stored under a key that is not its #identifier (linked placeholder): an object of a real class, stands alone *)
+Definition doc_ok_any (d : json) : bool :=
+  match d with
+  | JObj fs =>
+      match lookup K_TYPE fs with
+      | Some (JStr t) =>
+          negb (String.eqb t T_REF)
+          && (fix go (fs : list (string * json)) : bool :=
+                match fs with [] => true | (_, v) :: r => no_inline_named v && go r end) fs
+      | _ => false
+      end
+  | _ => false
+  end.
+Definition hop_keyed (o : hop) : bool :=
+  match o with
+  | HStore _ k p | HOver _ k p => match pt_id p with Some i => String.eqb i k | None => false end
+  | HDel _ _ => true
+  end.
+Definition hist_clean (ops : list hop) : bool :=
+  let ps := flat_map (fun o => match hop_pt o with Some p => [p] | None => [] end) ops in
+  ids_consistent ps && forallb hop_keyed ops && forallb all_encodable ps.
+Fixpoint seq_nat (n : nat) : list nat := match n with O => [] | S k => (seq_nat k ++ [k])%list end.
+
 Definition check_spec (c : case) : bool :=
   match c with
   | CStore roots ops impl_res impl_be impl_loads _ _ =>
@@ -217,5 +315,25 @@ Definition check_spec (c : case) : bool :=
   (* an old document must keep loading to the template it was written from *)
   | CPinned _ _ expected impl_loaded iface_ok =>
       match impl_loaded with Some q => json_eqb (repr q) (repr expected) && iface_ok | None => false end
+  | CHist ops impl_res impl_be finals impl_loads =>
+      let '(K, dels_ok) := krun [] ops impl_res in
+      forallb (fun o => Nat.eqb (hop_w o) 0) ops && dels_ok
+      (* exactly the keys that the protocol leaves; every document well formed and standing alone *)
+      && nodup_keys impl_be
+      && forallb (fun kv => has_key (fst kv) impl_be) K && forallb (fun kv => has_key (fst kv) K) impl_be
+      && forallb (fun kv => match lookup (fst kv) K with
+                            | Some q => match pt_id q with
+                                        | Some i => if String.eqb i (fst kv) then doc_ok (fst kv) (snd kv) else doc_ok_any (snd kv)
+                                        | None => doc_ok_any (snd kv) end
+                            | None => false end) impl_be
+      (* a root whose tree, as it is at the end, is what was last written under all of its keys loads back as that pulse *)
+      && forallb (fun k => match nth_error finals k with
+                           | Some (key, p, cmp) =>
+                               negb (cmp && current K key p)
+                               || match lookup_nat k impl_loads with Some l => all_true l | None => false end
+                           | None => false end) (seq_nat (length finals))
+      (* no identifier clashes, own identifiers as keys, encodable: storing and overwriting never fail *)
+      && (negb (hist_clean ops)
+          || forallb (fun orr => match fst orr with HDel _ _ => true | _ => sres_eqb (snd orr) SOk end) (combine ops impl_res))
   | CCrash => false
   end.
